@@ -11,6 +11,8 @@ open CuqiVerif CuqiVerif.Proto CuqiVerif.C19
     c2d:<r>:<c>                 Continuous2D((r,c))   (fun2vec / vec2fun raise NotImplementedError)
     step:<n>:<k>:<assign>       StepExpansion(n nodes, k steps); assign = step index of each node, `x` = unassigned
     map:<a>:<b>:<aff|affnoinv|sq>:<inner spec>   MappedGeometry(inner, map, imap)
+    tab:<n>:<name>:<inv|noinv>:<par2fun table>:<fun2par table>   1-D geometry whose maps are given as recorded leaf data
+                                (entry-coupling maps: softmax, x/‖x‖, centering, …); table = key>val|key>val
   samples state: <shape> <isPar> <isVec> <cols>   (cols: one row per sample, `_` = no samples)
 -/
 
@@ -25,6 +27,13 @@ def idGeom (tag : String) (d : Nat) (vars : List String) : Geometry :=
 
 def parseAssign (s : String) : Option (List (Option Nat)) :=
   (s.splitOn ",").mapM (fun t => if t = "x" then some none else (t.toNat?).map some)
+
+/-- `key>val|key>val` with comma-separated rational vectors; `_` = empty table -/
+def parseTable (s : String) : Option (List (List Rat × List Rat)) :=
+  if s = "_" then some [] else
+  (s.splitOn "|").mapM (fun e => match e.splitOn ">" with
+    | [k, v] => do let k ← parseVec k; let v ← parseVec v; pure (k, v)
+    | _ => none)
 
 partial def parseGeomFields (tag : String) : List String → Option Geometry
   | ["id", d] => do
@@ -67,6 +76,15 @@ partial def parseGeomFields (tag : String) : List String → Option Geometry
       let groups := (List.range k).map (fun i => (List.range n).filter (fun j => asg.getD j none == some i))
       pure { tag := tag, parDim := k, funShape := [n], funvecDim := n, varNames := defaultVars k,
              par2fun := (Conv.gather asg).apply, fun2par := (Conv.groupMean groups).apply,
+             fun2vec := Conv.id.apply, vec2fun := Conv.id.apply }
+  | ["tab", n, name, inv, t1, t2] => do
+      let n ← n.toNat?
+      let tb1 ← parseTable t1
+      let tb2 ← parseTable t2
+      pure { tag := "tab:" ++ toString n ++ ":" ++ name ++ ":" ++ inv, parDim := n, funShape := [n], funvecDim := n,
+             varNames := defaultVars n,
+             par2fun := (Conv.table tb1).apply,
+             fun2par := if inv = "inv" then (Conv.table tb2).apply else (Conv.fail "ValueError").apply,
              fun2vec := Conv.id.apply, vec2fun := Conv.id.apply }
   | "map" :: a :: b :: kind :: inner => do
       let a ← parseRat a
